@@ -4,6 +4,7 @@
 // Boost.Math 1.83 as a second opinion on the oracle (self-test section).  Law monitors: Legendre relation,
 // sn^2+cn^2=1, dn^2+k^2 sn^2=1, periodicity, oddness, Carlson symmetry and homogeneity.
 #define REF_ELLIPTIC_WITH_BOOST
+#include "harness/value_semantics.hpp"
 #include <GeographicLib/EllipticFunction.hpp>
 #include <GeographicLib/Math.hpp>
 #include "harness/common.hpp"
@@ -42,8 +43,8 @@ static std::string acls(double a2, double ap2) {
 }
 static Obj* make_obj(double k2, double a2, bool four, double kp2 = 0, double ap2 = 0) {
   Obj* o = new Obj; o->k2 = k2; o->a2 = a2; o->four = four;
-  if (four) { o->kp2 = kp2; o->ap2 = ap2; o->R.reset(new EllRef(k2, a2, kp2, ap2)); o->L.reset(new EllipticFunction(k2, a2, kp2, ap2)); }
-  else { o->kp2 = 1 - k2; o->ap2 = 1 - a2; o->R.reset(new EllRef(k2, a2)); o->L.reset(new EllipticFunction(k2, a2)); }
+  if (four) { o->kp2 = kp2; o->ap2 = ap2; o->R.reset(new EllRef(k2, a2, kp2, ap2)); o->L.reset(vh::detached_new<EllipticFunction>([&] { return EllipticFunction(k2, a2, kp2, ap2); }, [&] { return EllipticFunction(0.3, 0.2); })); }      // detached copies: harness/value_semantics.hpp
+  else { o->kp2 = 1 - k2; o->ap2 = 1 - a2; o->R.reset(new EllRef(k2, a2)); o->L.reset(vh::detached_new<EllipticFunction>([&] { return EllipticFunction(k2, a2); }, [&] { return EllipticFunction(0.3, 0.2); })); }
   o->cls = kcls(k2, o->kp2) + "," + acls(a2, o->ap2) + (a2 == k2 && k2 != 0 ? ",a2=k2" : "") + (four ? ",4-arg-ctor" : "");
   return o;
 }
